@@ -29,19 +29,22 @@ def _is_zero(e):
 
 
 class _Range:
-    def __init__(self, f, segs, rep, rule):
+    def __init__(self, f, segs, rep, rule, idx=None):
+        self.idx = idx
         self.f, self.segs, self.rep, self.rule = f, segs, rep, rule
         self.n = 0
 
     def upper_ok(self, e, U):
         return u(e) == U or (U == "1.0" and (is_const(e, 1) or is_const(e, 1.0)))
 
-    def clamp(self, v, U):
+    def clamp(self, v, U, st=None):
         """(lo_ok, hi_ok) of an expression assigned to a parameter variable, for the bound U"""
         if isinstance(v, ast.Constant) and isinstance(v.value, (int, float)):
             return v.value >= 0, (v.value <= 1 if U == "1.0" else v.value == 0)
         if isinstance(v, ast.Name) and v.id == U:
             return True, True
+        if isinstance(v, ast.Name) and st is not None and v.id in st:
+            return st[v.id]          # a copy of a variable whose confinement is known (`s = s_clamped`)
         if isinstance(v, ast.Call):
             cn = call_name(v) or ""
             if cn in ("min", "np.minimum") and len(v.args) == 2:
@@ -56,6 +59,20 @@ class _Range:
                         return True, hi
             if cn == "np.clip" and len(v.args) == 3:
                 return _is_zero(v.args[1]), self.upper_ok(v.args[2], U)
+            # a private helper with several exits (`if parallel: return 0.0` ... `return clamp(x)`): confined iff every value it returns is
+            if self.idx is not None and U == "1.0" and getattr(self, "_depth", 0) < 2:
+                callee = self.idx.resolve_call(self.f.module, v, None)
+                node = getattr(callee, "node", None)
+                if isinstance(node, ast.FunctionDef) and getattr(callee, "cls", None) is None and callee.name.startswith("_"):
+                    from ..core.inline import expand_helpers as _expand
+                    rets = [r.value for r in ast.walk(node) if isinstance(r, ast.Return) and r.value is not None]
+                    if rets and not any(isinstance(r, ast.Tuple) for r in rets):
+                        self._depth = getattr(self, "_depth", 0) + 1
+                        try:
+                            rs = [self.clamp(_expand(self.idx, callee.module, r, depth=2, only=lambda c: c.name.startswith("_")), U) for r in rets]
+                        finally:
+                            self._depth -= 1
+                        return all(x[0] for x in rs), all(x[1] for x in rs)
         return False, False
 
     def run(self):
@@ -139,16 +156,19 @@ class _Range:
     def stmt(self, s, st):
         if isinstance(s, ast.Assign):
             self.uses(s.value, st)
-            for t in s.targets:
-                for e in (t.elts if isinstance(t, ast.Tuple) else [t]):
-                    if isinstance(e, ast.Name):
-                        st = dict(st)
-                        if isinstance(t, ast.Tuple):
-                            st[e.id] = (False, False)
-                        else:
-                            us = self.bounds_for(e.id) or {"1.0"}
-                            r = [self.clamp(s.value, U) for U in us]
-                            st[e.id] = (all(x[0] for x in r), all(x[1] for x in r))
+            from ..core.astutil import assign_pairs
+            st0 = st
+            for e, val in assign_pairs(s):          # element-wise also for `s, t = (a, b)`
+                if isinstance(e, ast.Name):
+                    st = dict(st)
+                    us = self.bounds_for(e.id) or {"1.0"}
+                    r = [self.clamp(val, U, st0) for U in us]
+                    st[e.id] = (all(x[0] for x in r), all(x[1] for x in r))
+                elif isinstance(e, (ast.Tuple, ast.List)):
+                    st = dict(st)
+                    for x in e.elts:          # unpacking a call result: nothing known
+                        if isinstance(x, ast.Name):
+                            st[x.id] = (False, False)
             return st
         if isinstance(s, ast.AugAssign):
             if isinstance(s.target, ast.Name):
@@ -212,9 +232,13 @@ def r_onsegment(idx, rep, modules, rule="R-ONSEGMENT", floor=4):
                 # one-expression helpers (`_clamp_to_unit_interval(x)` = min(max(x, 0.0), 1.0)) are read as the expression they return
                 import copy as _copy
                 from ..core.inline import expand_helpers as _expand
+                from ..core.inline import inline_single_exit_helpers as _open
                 g = _copy.copy(f)
-                g.node = _expand(idx, f.module, f.node, depth=2, only=lambda c: c.name.startswith("_"))
-                _Range(g, segs, rep, rule).run()
+                # private single-exit helpers that compute the parameters (`s, t = _segment_and_line_parameters(a, b, c, e, f)`: an if / else around the clamp and one
+                # tuple return) are opened at the call site first
+                node = _open(idx, f.module, f.node, only=lambda c: getattr(c, "module", None) is f.module and c.name.startswith("_") and getattr(c, "cls", None) is None, depth=2)
+                g.node = _expand(idx, f.module, node, depth=2, only=lambda c: c.name.startswith("_"))
+                _Range(g, segs, rep, rule, idx=idx).run()
 
 
 def r_clipsym(idx, rep, modules, rule="R-CLIPSYM", floor=4):
